@@ -1425,4 +1425,400 @@ theorem down_entry_timestamps (img : Img) (n : Nat) (hr : Rect img n) (pf tf : N
 /-- non-vacuity of `down_entry_sum` / `down_entry_timestamps`: binning the two pixel rows of `exKymo` -/
 example : blockReduce exKymo.img 2 1 = [[⟨5, 100, 130⟩, ⟨7, 200, 230⟩, ⟨9, 300, 330⟩]] := by decide +kernel
 
+/-! ## Programs of selecting operations never show other data -/
+
+/-- `g` is a window of `f`: rows `r0 ≤ r < r1`, columns `c0 ≤ c < c1` of it, in place and in order -/
+def SubImg {α} (g f : List (List α)) : Prop := ∃ r0 r1 c0 c1, g = takeCols ((f.take r1).drop r0) c0 c1
+
+def widest {α} (f : List (List α)) : Nat := f.foldr (fun r m => max r.length m) 0
+
+theorem le_widest {α} (f : List (List α)) : ∀ r ∈ f, r.length ≤ widest f := by
+  induction f with
+  | nil => intro r hr; cases hr
+  | cons x xs ih =>
+    intro r hr
+    simp only [widest, List.foldr_cons]
+    rcases List.mem_cons.mp hr with rfl | h
+    · omega
+    · have := ih r h; unfold widest at this; omega
+
+theorem takeCols_all {α} (f : List (List α)) (c : Nat) (h : ∀ r ∈ f, r.length ≤ c) : takeCols f 0 c = f := by
+  unfold takeCols
+  conv => rhs; rw [← List.map_id f]
+  apply List.map_congr_left
+  intro r hr
+  simp [List.take_of_length_le (h r hr)]
+
+/-- a window of rows only -/
+theorem SubImg.rows {α} (f : List (List α)) (r0 r1 : Nat) : SubImg ((f.take r1).drop r0) f :=
+  ⟨r0, r1, 0, widest f, (takeCols_all _ _ (fun r hr =>
+    le_widest f r (List.mem_of_mem_take (List.mem_of_mem_drop hr)))).symm⟩
+
+theorem SubImg.refl {α} (f : List (List α)) : SubImg f f := by
+  have := SubImg.rows f 0 f.length
+  simpa using this
+
+/-- a window of columns only -/
+theorem SubImg.cols {α} (f : List (List α)) (c0 c1 : Nat) : SubImg (takeCols f c0 c1) f :=
+  ⟨0, f.length, c0, c1, by simp⟩
+
+theorem takeCols_take {α} (f : List (List α)) (c0 c1 k : Nat) : (takeCols f c0 c1).take k = takeCols (f.take k) c0 c1 := by
+  simp [takeCols, List.map_take]
+
+theorem takeCols_drop {α} (f : List (List α)) (c0 c1 k : Nat) : (takeCols f c0 c1).drop k = takeCols (f.drop k) c0 c1 := by
+  simp [takeCols, List.map_drop]
+
+/-- a window of a window is a window -/
+theorem SubImg.trans {α} {h g f : List (List α)} (hg : SubImg h g) (gf : SubImg g f) : SubImg h f := by
+  obtain ⟨r0, r1, c0, c1, rfl⟩ := hg
+  obtain ⟨s0, s1, d0, d1, rfl⟩ := gf
+  refine ⟨s0 + r0, min s1 (s0 + r1), d0 + c0, min d1 (d0 + c1), ?_⟩
+  rw [takeCols_take, takeCols_drop, takeCols_takeCols, crop_crop]
+
+/-- the operations that only select: time slices (`[a:b]` in either form), crops, recalibration -/
+def KOp.selects : KOp → Bool
+  | .slice _ _ | .get _ | .crop _ _ | .cropF _ _ | .kbp _ => true
+  | _ => false
+
+theorem sliceTime_subImg (v w : KView) (a b : Int) (h : v.sliceTime a b = .view w) : SubImg w.img v.img := by
+  unfold KView.sliceTime at h
+  split at h
+  · cases h
+  · split at h
+    · cases h
+    · simp only at h
+      split at h
+      · cases h
+      · split at h
+        · cases h
+        · injection h with h; rw [← h]; exact SubImg.cols _ _ _
+
+theorem apply_subImg (v w : KView) (op : KOp) (hs : op.selects = true) (h : v.apply op = .view w) :
+    SubImg w.img v.img := by
+  cases op with
+  | slice a b => exact sliceTime_subImg v w a b h
+  | get item =>
+    cases item with
+    | scalar => cases h
+    | window a b step =>
+      simp only [KView.apply, KView.getitem] at h
+      split at h
+      · cases h
+      · split at h
+        · cases h
+        · split at h
+          · exact sliceTime_subImg v w _ _ h
+          · cases h
+  | crop lo hi =>
+    simp only [KView.apply, KView.crop] at h
+    split at h
+    · cases h
+    · split at h
+      · cases h
+      · injection h with h; rw [← h]; exact SubImg.rows _ _ _
+  | cropF lo hi =>
+    simp only [KView.apply, KView.cropF] at h
+    split at h
+    · cases h
+    · split at h
+      · cases h
+      · injection h with h; rw [← h]; exact SubImg.rows _ _ _
+  | kbp len =>
+    simp only [KView.apply, KView.kbp] at h
+    split at h
+    · cases h
+    · split at h
+      · cases h
+      · injection h with h; rw [← h]; exact SubImg.refl _
+  | flip => cases hs
+  | down tf pf => cases hs
+  | downWith red tf pf => cases hs
+
+/-- **For every program of selecting operations, of any length:** if it yields a kymograph at all, the image shown is
+    a window of the source image — rows and lines of the source, in place and in order, never other data.  (Otherwise
+    the result is the empty kymograph or one of the documented errors.) -/
+theorem selecting_program_shows_window (prog : List KOp) (hsel : ∀ op ∈ prog, op.selects = true) (v w : KView)
+    (h : runK v prog = .view w) : SubImg w.img v.img := by
+  induction prog generalizing v with
+  | nil => injection h with h; rw [← h]; exact SubImg.refl _
+  | cons op ops ih =>
+    simp only [runK] at h
+    cases hop : v.apply op with
+    | view v' =>
+      rw [hop] at h
+      simp only at h
+      have h1 := apply_subImg v v' op (hsel op (by simp)) hop
+      split at h
+      · injection h with h; rw [← h]; exact h1
+      · exact SubImg.trans (ih (fun o ho => hsel o (by simp [ho])) v' h) h1
+    | empty => rw [hop] at h; cases h
+    | err e => rw [hop] at h; cases h
+
+/-- non-vacuity: `exKymo["110ns":][crop 1..2]` shows row 1, lines 1.. of the source -/
+example : (match runK exKymo [.get (.window (.str "110ns") .none false), .crop 1 2] with
+    | .view w => decide (values w.img = [[5, 6]]) | _ => false) = true := by decide +kernel
+
+theorem stamp_view (r : SRes) (w : SView) (h : r.stamp = .view w) : ∃ w', r = .view w' ∧ w.frames = w'.frames := by
+  cases r with
+  | view w' => injection h with h; exact ⟨w', rfl, by rw [← h]; rfl⟩
+  | empty => cases h
+  | err e => cases h
+
+theorem index_frames (v w : SView) (i : Int) (y0 y1 x0 x1 : Option Int) (h : v.index i y0 y1 x0 x1 = .view w) :
+    ∀ g ∈ w.frames, ∃ f ∈ v.frames, g = cropFrame f y0 y1 x0 x1 := by
+  rw [scan_index_refines] at h
+  split at h
+  · cases h
+  · rename_i f hf
+    split at h
+    · cases h
+    · injection h with h
+      rw [← h]
+      intro g hg
+      simp only [List.mem_singleton] at hg
+      refine ⟨f, ?_, hg⟩
+      unfold pyIndex at hf
+      split at hf
+      · split at hf
+        · cases hf
+        · exact List.mem_of_getElem? hf
+      · exact List.mem_of_getElem? hf
+
+theorem slice_frames (v w : SView) (a b y0 y1 x0 x1 : Option Int) (h : v.slice a b y0 y1 x0 x1 = .view w) :
+    ∀ g ∈ w.frames, ∃ f ∈ v.frames, g = cropFrame f y0 y1 x0 x1 := by
+  rw [scan_slice_refines] at h
+  split at h
+  · cases h
+  · split at h
+    · cases h
+    · injection h with h
+      rw [← h]
+      intro g hg
+      simp only [List.mem_map] at hg
+      obtain ⟨f, hf, rfl⟩ := hg
+      exact ⟨f, mem_pySliceOpt hf, rfl⟩
+
+theorem apply_frames (v w : SView) (op : SOp) (h : v.apply op = .view w) :
+    ∀ g ∈ w.frames, ∃ f ∈ v.frames, ∃ y0 y1 x0 x1, g = cropFrame f y0 y1 x0 x1 := by
+  intro g hg
+  cases op with
+  | cropxy y0 y1 x0 x1 =>
+    obtain ⟨f, hf, e⟩ := slice_frames v w _ _ _ _ _ _ h g hg
+    exact ⟨f, hf, _, _, _, _, e⟩
+  | index i y0 y1 x0 x1 =>
+    obtain ⟨w', hw', hfr⟩ := stamp_view _ w h
+    obtain ⟨f, hf, e⟩ := index_frames v w' _ _ _ _ _ hw' g (hfr ▸ hg)
+    exact ⟨f, hf, _, _, _, _, e⟩
+  | slice a b y0 y1 x0 x1 =>
+    obtain ⟨w', hw', hfr⟩ := stamp_view _ w h
+    obtain ⟨f, hf, e⟩ := slice_frames v w' _ _ _ _ _ _ hw' g (hfr ▸ hg)
+    exact ⟨f, hf, _, _, _, _, e⟩
+  | sliceT a b =>
+    obtain ⟨w', hw', hfr⟩ := stamp_view _ w h
+    obtain ⟨f, hf, e⟩ := slice_frames v w' _ _ _ _ _ _ hw' g (hfr ▸ hg)
+    exact ⟨f, hf, _, _, _, _, e⟩
+  | get fi sp =>
+    simp only [SView.apply, SView.getitem] at h
+    split at h
+    · cases h
+    · split at h
+      · cases h
+      · split at h
+        · obtain ⟨w', hw', hfr⟩ := stamp_view _ w h
+          obtain ⟨f, hf, e⟩ := index_frames v w' _ _ _ _ _ hw' g (hfr ▸ hg)
+          exact ⟨f, hf, _, _, _, _, e⟩
+        · obtain ⟨w', hw', hfr⟩ := stamp_view _ w h
+          obtain ⟨f, hf, e⟩ := slice_frames v w' _ _ _ _ _ _ hw' g (hfr ▸ hg)
+          exact ⟨f, hf, _, _, _, _, e⟩
+
+/-- on a rectangular frame the pixel crop is a window (negative / open / out-of-range bounds normalised as Python does) -/
+theorem cropFrame_subImg (f : Frame) (n : Nat) (hr : Rect f n) (y0 y1 x0 x1 : Option Int) :
+    SubImg (cropFrame f y0 y1 x0 x1) f ∧ ∃ m, Rect (cropFrame f y0 y1 x0 x1) m := by
+  have e : cropFrame f y0 y1 x0 x1 =
+      takeCols ((f.take (pyNorm f.length (y1.getD f.length))).drop (pyNorm f.length (y0.getD 0)))
+        (pyNorm n (x0.getD 0)) (pyNorm n (x1.getD n)) := by
+    unfold cropFrame takeCols
+    simp only [pySliceOpt, pySlice]
+    apply List.map_congr_left
+    intro row hrow
+    rw [hr row (List.mem_of_mem_take (List.mem_of_mem_drop hrow))]
+  refine ⟨⟨_, _, _, _, e⟩, min (pyNorm n (x1.getD n)) n - pyNorm n (x0.getD 0), ?_⟩
+  rw [e]
+  intro row hrow
+  simp only [takeCols, List.mem_map] at hrow
+  obtain ⟨r, hrm, rfl⟩ := hrow
+  simp [hr r (List.mem_of_mem_take (List.mem_of_mem_drop hrm))]
+
+/-- **For every program of scan operations, of any length** (frame indices and slices with any bounds, time windows,
+    items as the user writes them, pixel crops): if it yields a scan at all, every frame shown is a window — rows and
+    columns in place and in order — of one of the source's frames. -/
+theorem scan_program_shows_windows (prog : List SOp) (v w : SView) (hrect : ∀ f ∈ v.frames, ∃ n, Rect f n)
+    (h : runS v prog = .view w) :
+    (∀ g ∈ w.frames, ∃ f ∈ v.frames, SubImg g f) ∧ ∀ g ∈ w.frames, ∃ n, Rect g n := by
+  induction prog generalizing v with
+  | nil =>
+    injection h with h; rw [← h]
+    exact ⟨fun g hg => ⟨g, hg, SubImg.refl g⟩, hrect⟩
+  | cons op ops ih =>
+    simp only [runS] at h
+    cases hop : v.apply op with
+    | view v' =>
+      rw [hop] at h
+      simp only at h
+      have h1 := apply_frames v v' op hop
+      have hrect' : ∀ f ∈ v'.frames, ∃ n, Rect f n := by
+        intro g hg
+        obtain ⟨f, hf, y0, y1, x0, x1, rfl⟩ := h1 g hg
+        obtain ⟨n, hn⟩ := hrect f hf
+        exact (cropFrame_subImg f n hn y0 y1 x0 x1).2
+      obtain ⟨ih1, ih2⟩ := ih v' hrect' h
+      refine ⟨?_, ih2⟩
+      intro g hg
+      obtain ⟨f', hf', hs'⟩ := ih1 g hg
+      obtain ⟨f, hf, y0, y1, x0, x1, rfl⟩ := h1 f' hf'
+      obtain ⟨n, hn⟩ := hrect f hf
+      exact ⟨f, hf, SubImg.trans hs' (cropFrame_subImg f n hn y0 y1 x0 x1).1⟩
+    | empty => rw [hop] at h; cases h
+    | err e => rw [hop] at h; cases h
+
+/-- non-vacuity: `scan[1:]["…":, :, 1:]` on the three frames of `exScan3` -/
+example : (match runS exScan3 [.slice (some 1) none none none none none, .get (.slice (.num (-1)) .none false) [.slice none none false, .slice (some 1) none false]] with
+    | .view w => decide (w.frames.map values = [[[3]]]) | _ => false) = true := by decide +kernel
+
+/-- pixels that are neighbours along the position axis (same line) are `pt` apart in time -/
+def RowStep (img : Img) (pt : Int) : Prop :=
+  ∀ r c p q, pixAt img r c = some p → pixAt img (r + 1) c = some q → q.tmean - p.tmean = pt
+
+theorem pixAt_window (f : Img) (r0 r1 c0 c1 r c : Nat) (p : Pix)
+    (h : pixAt (takeCols ((f.take r1).drop r0) c0 c1) r c = some p) : pixAt f (r0 + r) (c0 + c) = some p := by
+  unfold pixAt takeCols at h
+  rw [List.getElem?_map, takeCols_getElem?] at h
+  unfold pixAt
+  split at h
+  · cases hrow : f[r0 + r]? with
+    | none => rw [hrow] at h; cases h
+    | some row =>
+      rw [hrow] at h
+      simp only [Option.map_some, Option.bind_some] at h ⊢
+      rw [takeCols_getElem?] at h
+      split at h
+      · exact h
+      · cases h
+  · cases h
+
+theorem RowStep.sub {g f : Img} {pt : Int} (h : SubImg g f) (hs : RowStep f pt) : RowStep g pt := by
+  obtain ⟨r0, r1, c0, c1, rfl⟩ := h
+  intro r c p q hp hq
+  have hp' := pixAt_window f r0 r1 c0 c1 r c p hp
+  have hq' := pixAt_window f r0 r1 c0 c1 (r + 1) c q hq
+  exact hs (r0 + r) (c0 + c) p q hp' (by rw [← hq']; congr 1)
+
+/-- **Pixel time after any program of selecting operations.**  If neighbouring pixels of a line of the source are `pt`
+    apart, every processed kymograph the program yields that can report a pixel time at all reports `pt` (the code reads
+    it off the timestamps of pixels `[0,0]` and `[1,0]` of the derived object). -/
+theorem selecting_program_pixel_time (prog : List KOp) (hsel : ∀ op ∈ prog, op.selects = true) (v w : KView)
+    (h : runK v prog = .view w) (pt : Int) (hs : RowStep v.img pt) (hp : w.processed = true) (t : Int)
+    (ht : w.pixelTime = .ok t) : t = pt := by
+  have hsub := RowStep.sub (selecting_program_shows_window prog hsel v w h) hs
+  unfold KView.pixelTime at ht
+  simp only [hp, Bool.not_true, Bool.false_eq_true, ↓reduceIte] at ht
+  split at ht
+  · cases ht
+  · split at ht
+    · rename_i a b ha hb
+      injection ht with ht
+      rw [← ht]
+      exact hsub 0 0 a b ha hb
+    · cases ht
+
+/-- non-vacuity: in `exKymo` the two pixels of every line are 20 ns apart; cropping after a time slice keeps that -/
+example : RowStep exKymo.img 20 := by
+  intro r c p q hp hq
+  match r, c with
+  | 0, 0 => simp [pixAt, exKymo] at hp hq; subst hp hq; decide
+  | 0, 1 => simp [pixAt, exKymo] at hp hq; subst hp hq; decide
+  | 0, 2 => simp [pixAt, exKymo] at hp hq; subst hp hq; decide
+  | 0, c + 3 => simp [pixAt, exKymo] at hp
+  | 1, c => simp [pixAt, exKymo] at hq
+  | r + 2, c => simp [pixAt, exKymo] at hp
+
+example : (match runK exKymo [.slice 150 1000, .crop 0 2] with
+    | .view w => (match w.pixelTime with | .ok t => decide (t = 20 ∧ w.processed = true) | _ => false) | _ => false) = true := by decide +kernel
+
+theorem stamp_fastRows (r : SRes) (w : SView) (h : r.stamp = .view w) : ∃ w', r = .view w' ∧ w.fastRows = w'.fastRows := by
+  cases r with
+  | view w' => injection h with h; exact ⟨w', rfl, by rw [← h]; rfl⟩
+  | empty => cases h
+  | err e => cases h
+
+theorem index_fastRows (v w : SView) (i : Int) (y0 y1 x0 x1 : Option Int) (h : v.index i y0 y1 x0 x1 = .view w) :
+    w.fastRows = v.fastRows := by
+  rw [scan_index_refines] at h
+  split at h
+  · cases h
+  · split at h
+    · cases h
+    · injection h with h; rw [← h]
+
+theorem slice_fastRows (v w : SView) (a b y0 y1 x0 x1 : Option Int) (h : v.slice a b y0 y1 x0 x1 = .view w) :
+    w.fastRows = v.fastRows := by
+  rw [scan_slice_refines] at h
+  split at h
+  · cases h
+  · split at h
+    · cases h
+    · injection h with h; rw [← h]
+
+theorem apply_fastRows (v w : SView) (op : SOp) (h : v.apply op = .view w) : w.fastRows = v.fastRows := by
+  cases op with
+  | cropxy y0 y1 x0 x1 => exact slice_fastRows v w _ _ _ _ _ _ h
+  | index i y0 y1 x0 x1 =>
+    obtain ⟨w', hw', e⟩ := stamp_fastRows _ w h
+    rw [e]; exact index_fastRows v w' _ _ _ _ _ hw'
+  | slice a b y0 y1 x0 x1 =>
+    obtain ⟨w', hw', e⟩ := stamp_fastRows _ w h
+    rw [e]; exact slice_fastRows v w' _ _ _ _ _ _ hw'
+  | sliceT a b =>
+    obtain ⟨w', hw', e⟩ := stamp_fastRows _ w h
+    rw [e]; exact slice_fastRows v w' _ _ _ _ _ _ hw'
+  | get fi sp =>
+    simp only [SView.apply, SView.getitem] at h
+    split at h
+    · cases h
+    · split at h
+      · cases h
+      · split at h
+        · obtain ⟨w', hw', e⟩ := stamp_fastRows _ w h
+          rw [e]; exact index_fastRows v w' _ _ _ _ _ hw'
+        · obtain ⟨w', hw', e⟩ := stamp_fastRows _ w h
+          rw [e]; exact slice_fastRows v w' _ _ _ _ _ _ hw'
+
+theorem runS_fastRows (prog : List SOp) (v w : SView) (h : runS v prog = .view w) : w.fastRows = v.fastRows := by
+  induction prog generalizing v with
+  | nil => injection h with h; rw [← h]
+  | cons op ops ih =>
+    simp only [runS] at h
+    cases hop : v.apply op with
+    | view v' => rw [hop] at h; simp only at h; rw [ih v' h, apply_fastRows v v' op hop]
+    | empty => rw [hop] at h; cases h
+    | err e => rw [hop] at h; cases h
+
+/-- **Pixel time after any program of scan operations**, for either orientation of the fast axis: if fast-axis
+    neighbours of the source are `pt` apart, every scan the program yields that can report a pixel time reports `pt`
+    (extends `scan_slice_keeps_fast_step` from one frame slice to all programs, time windows and user-style items
+    included). -/
+theorem scan_program_pixel_time (prog : List SOp) (v w : SView) (hrect : ∀ f ∈ v.frames, ∃ n, Rect f n)
+    (h : runS v prog = .view w) (pt : Int) (hstep : FastStep v pt) (t : Int) (ht : w.pixelTime = some t) : t = pt := by
+  refine scan_pixel_time_of_fast_step w pt t ?_ ht
+  have hfr := runS_fastRows prog v w h
+  obtain ⟨hwin, _⟩ := scan_program_shows_windows prog v w hrect h
+  intro g hg r c p q hp hq
+  obtain ⟨f, hf, r0, r1, c0, c1, rfl⟩ := hwin g hg
+  have hp' := pixAt_window f r0 r1 c0 c1 r c p hp
+  have hq' := pixAt_window f r0 r1 c0 c1 _ _ q hq
+  refine hstep f hf (r0 + r) (c0 + c) p q hp' ?_
+  rw [hfr] at hq'
+  rw [← hq']
+  cases v.fastRows <;> simp only [Bool.false_eq_true, ↓reduceIte] <;> congr 1
+
 end Verif.C06
